@@ -190,6 +190,18 @@ static std::vector<double> genVector(Rng & rng, size_t n, int & shape) {
     return v;
 }
 
+// ---------------------------------------------------------------- isProbability (ties the model's `isProb`)
+static void emit_isprob(const std::vector<double> & v) {
+    const size_t n = v.size();
+    const bool t = AI::isProbability(n, v);
+    AI::Matrix2D m(1, n); for (size_t i = 0; i < n; ++i) m(0, i) = v[i];
+    const bool md = AI::isProbability(m);
+    AI::SparseMatrix2D sm(1, n); for (size_t i = 0; i < n; ++i) if (v[i] != 0.0) sm.insert(0, i) = v[i];
+    sm.makeCompressed();
+    const bool ms = AI::isProbability(sm);
+    Line l; l << "C08" << "isprob"; l.nums(v); l << "|" << t << md << ms; l.emit();
+}
+
 // ---------------------------------------------------------------- makeRandomProbability
 static void emit_rand(const std::vector<uint64_t> & ks) {
     ScriptEngine e; for (auto k : ks) e.push53(k);
@@ -365,7 +377,7 @@ static void emit_sparse_model_witness() {
 // ---------------------------------------------------------------- cases
 static const long kWitness = 13;
 
-long verif::verif_ncases(const std::string & tier) { return kWitness + (tier == "thorough" ? 12000 : 700); }
+long verif::verif_ncases(const std::string & tier) { return kWitness + (tier == "thorough" ? 60000 : 5000); }
 
 static void witness(Rng & rng, long idx) {
     const double e21 = std::ldexp(1.0, -21);
@@ -393,7 +405,7 @@ void verif::verif_case(Rng & rng, long idx, const std::string & tier) {
     if (idx < kWitness) { witness(rng, idx); return; }
     const bool thorough = tier == "thorough";
     const size_t maxN = thorough ? 64 : 12;
-    int fam = (int)((idx - kWitness) % 8);
+    int fam = (int)((idx - kWitness) % 9);
     size_t n = (size_t)rng.range(1, rng.coin(3, 4) ? 8 : (long)maxN);
     int shape = 0;
     switch (fam) {
@@ -434,6 +446,20 @@ void verif::verif_case(Rng & rng, long idx, const std::string & tier) {
             auto p = genProb(rng, n, shape);
             std::printf("#stat vose_shape%d 1\n#stat vose_first_%s 1\n", shape, p[0] >= 1.0 / (double)n ? "above_avg" : "below_avg");
             emit_vose(rng, p, 6);
+            break;
+        }
+        case 7: {
+            // vectors around the acceptance boundary of isProbability, valid ones and arbitrary ones
+            int mode = (int)rng.below(3);
+            std::vector<double> v = mode == 0 ? genProb(rng, n, shape) : genVector(rng, n, shape);
+            if (mode == 2) {
+                v = genProb(rng, n, shape);
+                static const double offs[] = {1e-6 - 1e-8, 1e-6 + 1e-8, -(1e-6 - 1e-8), -(1e-6 + 1e-8), 5e-7, -5e-7, 2e-6, -2e-6};
+                size_t i = std::max_element(v.begin(), v.end()) - v.begin();
+                v[i] += offs[rng.below(8)];
+            }
+            std::printf("#stat isprob_mode%d 1\n", mode);
+            emit_isprob(v);
             break;
         }
         case 6: emit_models(rng, thorough ? 12 : 8); std::printf("#stat models 1\n"); break;
